@@ -12,6 +12,8 @@ import struct
 
 CONTAINERS = (b"moov", b"mvex")
 WIDEVINE = bytes.fromhex("edef8ba979d64acea3c827dcd51d21ed")
+RAW = b"\x00raw"
+LARGE_FREE = struct.pack(">I4sQ", 1, b"free", 16 + 5) + b"large"      # size == 1: 64-bit largesize header
 
 
 def read(buf: bytes, start: int = 0, end: int | None = None) -> list:
@@ -34,6 +36,9 @@ def read(buf: bytes, start: int = 0, end: int | None = None) -> list:
 def write(boxes: list) -> bytes:
     out = b""
     for typ, body in boxes:
+        if typ == RAW:
+            out += body               # a complete box given as bytes (e.g. with a 64-bit largesize header)
+            continue
         payload = write(body) if isinstance(body, list) else body
         out += struct.pack(">I4s", 8 + len(payload), typ) + payload
     return out
@@ -104,5 +109,8 @@ def variants(init: bytes) -> dict[str, bytes]:
         # a pssh of another system already stored in moov (in the middle / at the end)
         "psshmid": _edit(top, moov_fn=lambda kids: kids[:2] + [foreign] + kids[2:]),
         "psshend": _edit(top, moov_fn=lambda kids: kids + [foreign], mvex_fn=lambda k: [trex, mehd]),
+        # boxes with a 64-bit largesize header: after moov at top level / as the last child of moov
+        "largetop": [x for t, b in top for x in ([(t, b), (RAW, LARGE_FREE)] if t == b"moov" else [(t, b)])],
+        "largemoov": _edit(top, moov_fn=lambda kids: kids + [(RAW, LARGE_FREE)]),
     }
     return {name: write(boxes) for name, boxes in out.items()}
